@@ -2,6 +2,8 @@
 mod checks_l;
 mod checks_n;
 mod core;
+#[macro_use]
+mod http;
 mod interpose;
 mod rig_c;
 mod rig_l;
@@ -13,7 +15,7 @@ use serde_json::{json, Value};
 use std::io::Write;
 
 fn registry() -> Vec<&'static dyn Check> {
-    vec![&checks_l::C02, &checks_l::C03, &checks_l::C05, &checks_l::C04, &rig_c::C20, &checks_n::C01, &checks_n::C07, &checks_n::C06, &checks_n::C08, &checks_n::C19]
+    vec![&checks_l::C02, &checks_l::C03, &checks_l::C05, &checks_l::C04, &rig_c::C20, &checks_n::C01, &checks_n::C07, &checks_n::C06, &checks_n::C08, &checks_n::C19, &checks_n::C09, &checks_n::C10]
 }
 
 fn find(id: &str) -> &'static dyn Check {
